@@ -209,6 +209,15 @@ class QueueAndMirror(Suite):
                             f"{sorted(map(str, committed))} (pending {len(pending)})")
                 if len(ep.requests) != nreq:
                     return f"requests: {where}: {len(ep.requests)} update requests sent, expected {nreq}"
+            # every history ends with a commit: whatever is still queued must arrive, in order, in one request
+            st.commit()
+            flush()
+            actual = set(Graph(store=ep.ds.store, identifier=URIRef("urn:g")))
+            if actual != committed:
+                return (f"mirror: after the final commit: endpoint holds {sorted(map(str, actual))} expected "
+                        f"{sorted(map(str, committed))}")
+            if len(ep.requests) != nreq:
+                return f"requests: after the final commit: {len(ep.requests)} update requests sent, expected {nreq}"
             return None
         finally:
             conn.urlopen = saved
